@@ -18,7 +18,7 @@ def build(d, san=False):
 
 def model_list(tier):
     if tier == "quick":
-        ms = models.enumerate_models(Ls=(1, 2, 3), mems=(0, 1), Hs=(4,), limit=6000)
+        ms = models.enumerate_models(Ls=(1, 2, 3), mems=(0, 1), Hs=(4,), limit=30000)
     else:
         ms = models.enumerate_models(Ls=(1, 2, 3), mems=(0, 1), Hs=(4, 6), limit=None)
     return models.FEATURE_MODELS + ms
